@@ -87,9 +87,9 @@ Init_quick == PairsLE("A.", <<"S1", "S2", "SL", "SC", "V2", "W2", "V3", "N1", "N
               \cup PairsLE("B.", <<"S2", "V3", "W3", "K3", "A3", "X3">>, 1)
               \cup {Triple("A.", "S1", "W2", "N1", 2)}
 Init_thorough == PairsLE("A.", Names, 1) \cup PairsLE("B.", Names, 1) \cup PairsLE("C.", Names, 1)
-              \cup {Triple("A.", "S1", "W2", "N1", 3), Triple("A.", "V2", "S2", "K2", 3), Triple("B.", "W3", "V3", "S2", 3),
-                    Triple("A.", "SC", "C2", "N3", 2), Triple("A.", "V3", "S1", "A3", 2), Triple("B.", "V3", "SL", "K3", 2),
-                    Triple("C.", "V3", "S2", "V2", 2), Triple("A.", "S2", "SE", "V4", 2)}
+              \cup {Triple("A.", "S1", "W2", "N1", 2), Triple("B.", "W3", "V3", "S2", 2), Triple("A.", "SC", "C2", "N3", 2),
+                    Triple("A.", "V3", "S1", "A3", 2), Triple("B.", "V3", "SL", "K3", 2), Triple("C.", "V3", "S2", "V2", 2)}
+              \* (depth-3 triples made 3.8 million states: more than a 6 GB heap holds and far more than can be replayed)
 
 OpsC03 == {"neg", "pos", "abs", "real", "imag", "conj", "cabs",
            "add", "sub", "mul", "div", "pow", "dot", "cross", "angle", "lshift", "comp", "restack", "ufunc1", "ufunc2"}
